@@ -96,10 +96,10 @@ def run(ctx):
         if ct is None:
             if not c_out[3 * i].startswith("skip"):
                 ctx.violation("HUF_buildCTable_wksp failed on a buffer with >= 2 distinct symbols: %s" % c_out[3 * i][:200],
-                              dict(kind="tie", op=c_in[3 * i][:400000], c=c_out[3 * i], model=""))
+                              dict(kind="tie", op=c_in[3 * i][:40000000], c=c_out[3 * i], model=""))
             continue
         if e1 is None or e4 is None or e1["codes"] != ct["codes"] or e4["codes"] != ct["codes"] or e1["log"] != ct["log"]:
-            ctx.violation("C side not deterministic across ops", dict(kind="tie", op=c_in[3 * i][:400000], c=c_out[3 * i:3 * i + 3], model=""))
+            ctx.violation("C side not deterministic across ops", dict(kind="tie", op=c_in[3 * i][:40000000], c=c_out[3 * i:3 * i + 3], model=""))
             continue
         log, ws = weights_of(ct)
         hx = data.hex()
@@ -119,22 +119,22 @@ def run(ctx):
         n += 3
         if mc.get("codes") != ct["codes"]:
             ctx.violation("code values differ: HUF_buildCTableFromTree vs HufEnc.codesOf (log=%s)" % ct["log"],
-                          dict(kind="tie", op=ops[0][:400000], c=ct["codes"], model=mc.get("codes")))
+                          dict(kind="tie", op=ops[0][:40000000], c=ct["codes"], model=mc.get("codes")))
         if mc.get("weightsOK") != "true":
             ctx.violation("weights derived from the library's code lengths fail WeightsOK",
-                          dict(kind="tie", op=ops[0][:400000], c=ct["codes"], model=m_out[3 * j][-200:]))
+                          dict(kind="tie", op=ops[0][:40000000], c=ct["codes"], model=m_out[3 * j][-200:]))
         for tag, ce, me, op in (("enc1", e1, m1, ops[1]), ("enc4", e4, m4, ops[2])):
             if ce.get("stream") != me.get("stream"):
                 ctx.violation("%s stream bytes differ between the library and the model" % tag,
-                              dict(kind="tie", op=op[:400000], c=ce.get("stream"), model=me.get("stream")))
+                              dict(kind="tie", op=op[:40000000], c=ce.get("stream"), model=me.get("stream")))
             if me.get("rt") not in ("ok", "-") or (me.get("rt") == "-" and me.get("stream") != "refused"):
                 ctx.violation("%s: the decoder model does not invert the encoder model: rt=%s" % (tag, me.get("rt")),
-                              dict(kind="tie", op=op[:400000], c=ce.get("stream"), model=me.get("stream")))
+                              dict(kind="tie", op=op[:40000000], c=ce.get("stream"), model=me.get("stream")))
             if ce.get("stream") not in ("refused", "err") and ce.get("tight") != "same":
                 ctx.violation("%s: library output depends on the destination capacity (tight=%s)" % (tag, ce.get("tight")),
-                              dict(kind="tie", op=op[:400000], c=ce.get("stream"), model=""))
+                              dict(kind="tie", op=op[:40000000], c=ce.get("stream"), model=""))
         if e4.get("stream") == "refused" and len(bufs[i][1]) >= 12:
-            ctx.violation("enc4 refused an input of %d >= 12 bytes" % len(bufs[i][1]), dict(kind="tie", op=ops[2][:400000], c="refused", model=m4.get("stream")))
+            ctx.violation("enc4 refused an input of %d >= 12 bytes" % len(bufs[i][1]), dict(kind="tie", op=ops[2][:40000000], c="refused", model=m4.get("stream")))
     # HUF_readCTable on the header written by HUF_writeCTable_wksp rebuilds the same codes (both C functions share the model's rule)
     if r_in:
         rc, out, err = zv.run([exe], "\n".join(r_in) + "\n", timeout=600)
